@@ -27,6 +27,48 @@ theorem C19_auth_signout_order (s : ASess) (revokeOK : Bool) :
     (revokeOK = false → (signOut "POST" (.opens s) revokeOK).1 = .errorPage ∧ (signOut "POST" (.opens s) revokeOK).2.1 = []) := by
   cases revokeOK <;> simp [signOut]
 
+/-- **The proxy's half.** Visiting the proxy's sign-out URL clears the proxy session cookie and sends the browser to the
+authenticator with a return address on the *same host* (`scheme://<request Host>/`, nothing request-controlled beyond the Host
+that routed the request) whose signature covers exactly the return address and the timestamp it carries. -/
+theorem C19_proxy_signout (secure : Bool) (host : String) (now : Int) :
+    (proxySignOut secure host now).1 = true ∧
+    (proxySignOut secure host now).2.redirectURI = (if secure then "https" else "http") ++ "://" ++ host ++ "/" ∧
+    (proxySignOut secure host now).2.ts = now ∧
+    (proxySignOut secure host now).2.signedOver =
+      macInput (proxySignOut secure host now).2.redirectURI (proxySignOut secure host now).2.ts := by
+  simp [proxySignOut]
+
+theorem nat_repr_ne (n : Nat) : Nat.repr n ≠ "" := by
+  intro h
+  have := congrArg String.length h
+  simp [Nat.repr] at this
+
+/-- the decimal rendering of an integer is never empty -/
+theorem int_toString_ne (t : Int) : toString t ≠ "" := by
+  cases t with
+  | ofNat n => simpa [toString, Int.repr] using nat_repr_ne n
+  | negSucc n =>
+    intro h
+    have := congrArg String.length h
+    simp [toString, Int.repr] at this
+
+/-- **The two halves fit.** With the same client secret on both sides (non-empty), the link the proxy hands out passes the
+authenticator's signature gate for five minutes — and with a different secret it never does. -/
+theorem C19_proxy_link_passes_signature_gate (secure : Bool) (host secretP secretA : String) (t now : Int) (parses : Bool) :
+    validSignature secretA now (sigInOfLink secretP secretA (proxySignOut secure host t).2 parses) =
+      (decide (secretA ≠ "") && parses && decide (now - t ≤ sigTTL) && decide (secretP = secretA)) := by
+  have hts : t.repr ≠ "" := by simpa [toString] using int_toString_ne t
+  have huri : (if secure = true then "https" else "http") ++ "://" ++ host ++ "/" ≠ "" := by
+    intro h
+    have := congrArg String.length h
+    cases secure <;> simp [String.length_append] at this
+  simp only [validSignature, sigInOfLink, proxySignOut]
+  by_cases h1 : secretA = "" <;> by_cases h2 : secretP = secretA <;> cases parses <;>
+    by_cases h3 : now - t ≤ sigTTL <;> simp [h1, h2, h3, hts, huri]
+
+example : validSignature "s" 100 (sigInOfLink "s" "s" (proxySignOut true "app.x.io" 0).2 true) = true := by
+  rw [C19_proxy_link_passes_signature_gate]; decide
+
 /-- GET never revokes or clears: it shows the confirmation page (or just returns the browser when no session loads). -/
 theorem C19_auth_signout_get (c : CookieIn) (revokeOK : Bool) :
     (signOut "GET" c revokeOK).2.1 = [] ∧ (signOut "GET" c revokeOK).2.2 = [] := by
